@@ -320,9 +320,12 @@ def shrink(mod, binpath, drvpath, case, kind):
                         if nv != v and nv >= 0:
                             yield ' '.join(toks[:k] + [format(nv, 'x')] + toks[k + 1:])
     cur = case
+    t_end = time.time() + getattr(mod, 'SHRINK_BUDGET_S', 120)
     for _ in range(200):
         progressed = False
         for c in cand_fn(cur):
+            if time.time() > t_end:     # shrinking is a convenience, never worth minutes
+                return cur
             try:
                 if fails(c):
                     cur = c
